@@ -232,6 +232,24 @@ def compare(cases, impl_obs, model_obs, fields=("res", "out", "rest", "ev"), nor
         which = [n for n, x, y in zip(("res", "out", "rest", "ev"), fa, fb) if x != y and n in fields]
         if which: bad.append(dict(program=c["text"], stdin=c.get("stdin", []), impl=decode_v(fa[0]), model=decode_v(fb[0]), which=which,
                                   detail=None if which == ["res"] else dict(impl=[x[:300] for x in fa[1:]], model=[x[:300] for x in fb[1:]])))
+    # make the first failing inputs small (the shrunk program is added next to the original; it fails the same comparison)
+    try:
+        import shrink
+        todo = [d for d in sorted(bad, key=lambda x: len(x["program"])) if d["which"] != ["ev"] and d["which"] != ["driver"]][:3]
+        for d in todo:
+            proto = next(c for c in cases if c["text"] == d["program"])
+            def still_fails(txt, proto=proto):
+                c2 = dict(proto, text=txt); a2 = impl_one(c2); b2 = model_run([c2])[0]
+                fa2, fb2 = a2.split("\t"), b2.split("\t")
+                if len(fb2) < 4 or fb2[0].startswith(("FUEL", "UNMODELLED")) or fa2[0].startswith("TIMEOUT"): return False
+                if norm: fa2, fb2 = norm(fa2), norm(fb2)
+                return any(x != y for n, x, y in zip(("res", "out", "rest", "ev"), fa2, fb2) if n in fields and n != "ev")
+            small = shrink.shrink_program(d["program"], still_fails)
+            if small != d["program"] and len(small) < len(d["program"]):
+                c2 = dict(proto, text=small); a2 = impl_one(c2).split("\t"); b2 = model_run([c2])[0].split("\t")
+                d["shrunk"] = dict(program=small, impl=decode_v(a2[0]), model=decode_v(b2[0]))
+    except Exception as e:
+        pass
     return dist, bad
 
 # ------------------------------------------------------------------------------------------------ known findings
